@@ -23,6 +23,7 @@ bootstrap.setup(("llama_agents.server",))
 from vmc.checks.common import Program, replay_program, run_programs  # noqa: E402
 from vmc.explore import Execution  # noqa: E402
 from vmc.loop import VLoop  # noqa: E402
+from vmc import state19 as S19  # noqa: E402
 from llama_agents.server._store.sqlite.sqlite_workflow_store import SqliteWorkflowStore  # noqa: E402
 from workflows.context.state_store import DictState, InMemoryStateStore  # noqa: E402
 
@@ -30,8 +31,10 @@ PID = "C20"
 _TMP: dict[str, Any] = {}
 
 
-def make_store(backend: str, initial: dict[str, Any]) -> Any:
+def make_store(backend: str, initial: dict[str, Any], typed: bool = False) -> Any:
     if backend == "memory":
+        if typed:
+            return InMemoryStateStore(S19.Child(**json.loads(json.dumps(initial))))
         return InMemoryStateStore(DictState(**json.loads(json.dumps(initial))))
     key = f"ws{os.getpid()}"
     if key not in _TMP:
@@ -42,7 +45,7 @@ def make_store(backend: str, initial: dict[str, Any]) -> Any:
 
         atexit.register(shutil.rmtree, _TMP["dir"], True)
     _TMP["n"] += 1
-    st = _TMP[key].create_state_store(f"run-{_TMP['n']}", DictState)
+    st = _TMP[key].create_state_store(f"run-{_TMP['n']}", S19.Child if typed else DictState)
     return st
 
 
@@ -68,18 +71,30 @@ def ref_apply(d: dict[str, Any], op: Any) -> dict[str, Any]:
         d[op[1]] = op[2]
     elif k == "edit_copy":  # y := x  (reads one key, writes another)
         d[op[2]] = d.get(op[1], 0)
+    elif k == "t_edit_nested_inc":  # child-only field, mutated in place after the suspension
+        d["nested"]["x"] += 1
+    elif k == "t_edit_extra_append":
+        d["extra"] = d["extra"] + [op[1]]
+    elif k == "t_edit_count_inc":
+        d["count"] += 1
+    elif k == "t_set_parent":  # set_state with the PARENT type: every parent field is overlaid, child-only fields stay
+        d.update(S19.Base(**op[1]).model_dump())
+    elif k == "t_set_child":
+        d = S19.Child(**op[1]).model_dump()
     elif k == "edit_two":  # two suspension points inside one block
         d[op[1]] = d.get(op[1], 0) + 1
         d[op[2]] = d.get(op[2], 0) + 10
     return d
 
 
-def execute(ex: Execution, backend: str, ops: list[Any], initial: dict[str, Any]) -> tuple[Any, list[Any]]:
+def execute(ex: Execution, backend: str, ops: list[Any], initial: dict[str, Any], typed: bool = False) -> tuple[Any, list[Any]]:
     loop = VLoop()
     loop.install()
     v: list[Any] = []
+    if typed:
+        initial = S19.Child(**initial).model_dump()
     try:
-        store = make_store(backend, initial)
+        store = make_store(backend, initial, typed)
         gates: dict[str, asyncio.Future] = {}
         tasks: dict[int, asyncio.Task] = {}
         n = len(ops)
@@ -115,6 +130,23 @@ def execute(ex: Execution, backend: str, ops: list[Any], initial: dict[str, Any]
                     val = st.get(op[1], 0)
                     await gate(f"t{i}")
                     st[op[2]] = val
+            elif k == "t_edit_nested_inc":
+                async with store.edit_state() as st:
+                    await gate(f"t{i}")
+                    st.nested.x += 1
+            elif k == "t_edit_extra_append":
+                async with store.edit_state() as st:
+                    await gate(f"t{i}")
+                    st.extra = st.extra + [op[1]]
+            elif k == "t_edit_count_inc":
+                async with store.edit_state() as st:
+                    val = st.count
+                    await gate(f"t{i}")
+                    st.count = val + 1
+            elif k == "t_set_parent":
+                await store.set_state(S19.Base(**op[1]))
+            elif k == "t_set_child":
+                await store.set_state(S19.Child(**op[1]))
             elif k == "edit_two":
                 async with store.edit_state() as st:
                     a = st.get(op[1], 0)
@@ -126,7 +158,7 @@ def execute(ex: Execution, backend: str, ops: list[Any], initial: dict[str, Any]
 
         if backend == "sqlite" and initial:
             async def seed() -> None:
-                await store.set_state(DictState(**initial))
+                await store.set_state(S19.Child(**initial) if typed else DictState(**initial))
             t0 = loop.create_task(seed())
             loop.drain()
             assert t0.done()
@@ -155,6 +187,8 @@ def execute(ex: Execution, backend: str, ops: list[Any], initial: dict[str, Any]
             else:
                 gates[a[1]].set_result(None)
         w = {"backend": backend, "ops": sorted({o[0] for o in ops})}
+        if typed:
+            w["typed_state"] = True
         stuck = [i for i, t in tasks.items() if not t.done()]
         failed = [(i, repr(t.exception())) for i, t in tasks.items() if t.done() and not t.cancelled() and t.exception() is not None]
         if stuck:
@@ -164,7 +198,8 @@ def execute(ex: Execution, backend: str, ops: list[Any], initial: dict[str, Any]
         final: Any = None
         if not stuck and not failed:
             async def read() -> Any:
-                return dict((await store.get_state())._data)
+                got = await store.get_state()
+                return got.model_dump() if typed else dict(got._data)
             tr = loop.create_task(read())
             loop.drain()
             final = json.loads(json.dumps(tr.result()))
@@ -212,8 +247,30 @@ def op_sets(tier: str) -> list[tuple[str, list[Any], dict[str, Any]]]:
     return sets
 
 
+def typed_op_sets(tier: str) -> list[tuple[str, list[Any], dict[str, Any]]]:
+    """typed state with inheritance: the store holds Child(Base); set_state(Base(..)) merges the parent fields"""
+    sets: list[tuple[str, list[Any], dict[str, Any]]] = [
+        ("nested_inc_set_parent", [("t_edit_nested_inc",), ("t_set_parent", {"name": "B"})], {}),
+        ("extra_append_set_parent", [("t_edit_extra_append", 1), ("t_set_parent", {"name": "B", "count": 5})], {}),
+        ("count_inc_set_parent", [("t_edit_count_inc",), ("t_set_parent", {"name": "B"})], {"count": 3}),
+        ("nested_inc_set_child", [("t_edit_nested_inc",), ("t_set_child", {"name": "C", "extra": [9]})], {}),
+        ("nested_inc_extra_append_set_parent", [("t_edit_nested_inc",), ("t_edit_extra_append", 2), ("t_set_parent", {"name": "B"})], {}),
+    ]
+    if tier != "quick":
+        sets += [
+            ("nested_inc_set_parent_set_parent", [("t_edit_nested_inc",), ("t_set_parent", {"name": "B"}), ("t_set_parent", {"count": 7})], {}),
+            ("count_inc_nested_inc_set_child", [("t_edit_count_inc",), ("t_edit_nested_inc",), ("t_set_child", {"name": "C"})], {"count": 1}),
+        ]
+    return sets
+
+
 def programs(tier: str) -> list[Program]:
     ps = []
+    for backend in ("memory", "sqlite"):
+        for name, ops, initial in typed_op_sets(tier):
+            ps.append(Program(f"{backend}/typed/{name}", {"backend": backend, "ops": ops, "initial": initial, "typed": True},
+                              (lambda ex, backend=backend, ops=ops, initial=initial: execute(ex, backend, ops, initial, True)),
+                              max_dev=None, min_concurrency=2))
     for backend in ("memory", "sqlite"):
         for name, ops, initial in op_sets(tier):
             ps.append(Program(f"{backend}/{name}", {"backend": backend, "ops": ops, "initial": initial},
@@ -223,7 +280,9 @@ def programs(tier: str) -> list[Program]:
 
 
 RULE = ("2-4 tasks, one store operation each from {set(path), set_state (whole-state replace), clear, edit_state blocks that read, "
-        "suspend at 1-2 harness gates and write (increment, put, copy x->y)} on colliding keys, started at explorer-chosen points; "
+        "suspend at 1-2 harness gates and write (increment, put, copy x->y)} on colliding keys - and, on a typed state with "
+        "inheritance (Child(Base)), edit blocks that mutate child-only / parent fields after a suspension against set_state with the "
+        "parent type (merge) or the child type (replace) - started at explorer-chosen points; "
         "every interleaving of starts and gate releases on the real InMemoryStateStore and SqliteStateStore (DB file); the final "
         "state must equal the result of some permutation of the operations applied atomically to a plain dict; non-trivial = at "
         "least one deviation from the default order")
